@@ -8,7 +8,7 @@ HOOK_COMMITS = ["6837c9b"]
 CHECKS = {
     "C01": dict(
         technique="reference-model monitor: exact rational 4x4 scanline model evaluated on every pixel of generated fills",
-        text="Every pixel of every generated fill (random, directed, and in the thorough tier every quarter-grid triangle on a 2x2 surface) is compared with an exact integer model of the statement; held on the cases run, nothing is proved. Also: surfaces 8191..70000 px long in one direction, 100-300 coincident contours, outlines doubled and sides split by collinear vertices, and exact grid-preserving transforms (the model evaluated on the exactly transformed polygon).",
+        text="Every pixel of every generated fill (random, directed, and in the thorough tier every quarter-grid triangle on a 2x2 surface) is compared with an exact integer model of the statement; held on the cases run, nothing is proved. Also: surfaces 8191..70000 px long in one direction, 100-300 coincident contours (256 among them on every run, 512 and 768 in the thorough tier), combs of 4-70 thin bars crossed by shallow slivers, outlines doubled and sides split by collinear vertices, and exact grid-preserving transforms (the model evaluated on the exactly transformed polygon).",
         note="Trusts the observation identity white-on-transparent alpha == coverage byte (all four channels are checked to agree), the i128 model in harness/src/checks/c01.rs, and leaves pixels with an edge crossing inside the fixed-point ambiguity band unasserted (counted in the evidence).",
         ref="DESIGN.md section 3, C01",
     ),
@@ -68,20 +68,20 @@ CHECKS = {
     ),
     "C04": dict(
         technique="reference-model monitor: independently constructed stroke region (convex primitives in f64, mapped by the transform) evaluated on every pixel of generated strokes",
-        text="Generated strokes (polylines and curves, open/closed, directed turning angles incl. 0/90/180 degrees, widths 0.3..40, 3 caps x 3 joins, miter limits on both sides of the switch-over, translation/rotation/scale/shear/mirror transforms, both AA modes) rendered white on transparent; pixels deep inside the region must be fully painted, pixels deep outside untouched (margin 0.5 px straight, 1 px otherwise); non-positive and NaN widths must paint nothing. Held on the strokes run. Also: strokes drawn under power-of-two user scales with the oracle unscaled, 100-513 passes over one segment, steps one f32 spacing long at 2^23/2^24, miter spikes thousands of pixels long, strokes 300-1500 units wide, strokes reaching in from outside under stretching transforms, subpaths that touch end to start.",
+        text="Generated strokes (polylines and curves, open/closed, directed turning angles incl. 0/90/180 degrees, widths 0.3..40, 3 caps x 3 joins, miter limits on both sides of the switch-over, translation/rotation/scale/shear/mirror transforms, both AA modes) rendered white on transparent; pixels deep inside the region must be fully painted, pixels deep outside untouched (margin 0.5 px straight, 1 px otherwise); non-positive and NaN widths must paint nothing. Held on the strokes run. Also: strokes drawn under power-of-two user scales with the oracle unscaled, 100-513 passes over one segment, steps one f32 spacing long at 2^23/2^24, miter spikes thousands of pixels long, strokes 300-1500 units wide, strokes reaching in from outside under stretching transforms, subpaths that touch end to start, strokes 1500-9000 units wide of polylines that turn by 1e-4..4e-3 rad, straight strokes at user scales of 2^+-40..2^+-60, every other path rebuilt through the PathBuilder calls.",
         note="Containment is conservative (pixel disc inside one primitive / clear of all primitives); pixels near the boundary, miter joins within 3% of their switch-over and near-cusp vertices are not asserted (counted). For curved paths the polyline is Path::flatten() at the stroker's tolerance, except curves whose points share one x or y, which are straightened in closed form.",
         ref="DESIGN.md section 3, C04",
     ),
     "C08": dict(
         technique="reference-model monitor: f64 path interpreter, winding number and distance to the finely sampled outline at every pixel centre of generated curved fills and clip paths",
-        text="Generated paths mixing move/line/quad/cubic/arc/close (looping, cusped, coincident control points, commands after close, missing MoveTo, control points out to +-3500) under invertible transforms, both rules and AA modes, as fills and as clip paths; every pixel more than 1 px from the exact outline must be 255 inside / 0 outside. Held on the paths run.",
+        text="Generated paths mixing move/line/quad/cubic/arc/close (looping, cusped, coincident control points, commands after close, missing MoveTo, control points out to +-3500) under invertible transforms, both rules and AA modes, as fills and as clip paths; every pixel more than 1 px from the exact outline must be 255 inside / 0 outside. Held on the paths run. Also: diagonal curves 800-7000 px long whose turning point lies within 1/256 of the parameter range from an end, and outlines (or full turns of arc) that end 1e-6..3e-4 px from their start next to a sample row with a second shape to their right.",
         note="Curves sampled at 256 steps in f64; in the mixed random paths arcs are taken through the control points PathBuilder::arc emitted (C20 owns their geometry); a separate workload of discs, pies and rings built with arc() is judged against the true circles, direction included.",
         ref="DESIGN.md section 3, C08",
     ),
     "C09": dict(
         technique="reference-model monitor: independent f64 arc-length dasher feeding the C04 region oracle, plus a polyline-level check of the private dash_path through the verif_dash_path hook",
-        text="Generated dashed strokes (open/closed subpaths, arrays of 1..6 positive entries incl. entries longer than the path and odd lengths, offsets of both signs up to +-2e4, all caps/joins) are compared pixel by pixel with the region of the independently dashed pieces (0.75 px margin); dash_path's output must conserve the on-length, stay on the input path and have the expected number of connected pieces; non-positive totals must paint nothing. Held on the cases run. Also: whole-number rectangles with whole dash lengths (boundaries exactly on vertices, round caps and joins), spokes from one centre, closed polygons of 28-80 sides inside the first dash, dashes turning straight back.",
-        note="Cases with a dash boundary within 0.02 px of a vertex are skipped unless caps and joins are Round (cap orientation would flip on f32 rounding). The guard includes boundaries up to 1 px beyond either end of a subpath. Larger offsets are left to C07 (f32 period rounding moves the phase).",
+        text="Generated dashed strokes (open/closed subpaths, arrays of 1..6 positive entries incl. entries longer than the path and odd lengths, offsets of both signs up to +-2e4, all caps/joins) are compared pixel by pixel with the region of the independently dashed pieces (0.75 px margin); dash_path's output must conserve the on-length, stay on the input path and have the expected number of connected pieces; non-positive totals must paint nothing. Held on the cases run. Also: whole-number rectangles with whole dash lengths (boundaries exactly on vertices, round caps and joins), spokes from one centre, closed polygons of 28-80 sides inside the first dash, dashes turning straight back, and whole-number geometry (axis-aligned and Pythagorean segments, closed and open) with dash entries taken from the segment lengths and offsets of -0.0 and exact multiples of the pattern length, for every cap and join.",
+        note="Cases with a dash boundary within 0.02 px of a vertex are skipped unless caps and joins are Round (cap orientation would flip on f32 rounding); near the two ends of a subpath they are skipped for Round too (a sliver there is a whole dot); neither applies to the whole-number workloads, where the arithmetic is exact. The guard includes boundaries up to 1 px beyond either end of a subpath. Larger offsets are left to C07 (f32 period rounding moves the phase).",
         ref="DESIGN.md section 3, C09",
     ),
     "C07": dict(
@@ -110,7 +110,7 @@ CHECKS = {
     ),
     "C13": dict(
         technique="reference-model monitor: f64 image sampler (nearest texel / 4-bit bilinear weights, pad/repeat) evaluated at M(pixel centre) of generated image fills and draw_image calls",
-        text="Generated images with position-encoding texels, both extend modes and filters, alpha, source and current transforms (integer/fractional/half-texel translations, scales incl. negative, rotations, far beyond the edges): Nearest must return exactly the texel under the pixel centre, Bilinear the 4-bit-weighted interpolation within 1 LSB and exactly the texel at texel centres; draw_image_at/with_size_at are checked against the statement. Held on what was run. Also: exact mirror transforms, pixel slices longer than the image, surfaces 300-900 px wide under a 1/64..1/128 scale with a compensating source translation, strongly minifying current transforms cancelled by the source transform.",
+        text="Generated images with position-encoding texels, both extend modes and filters, alpha, source and current transforms (integer/fractional/half-texel translations, scales incl. negative, rotations, far beyond the edges): Nearest must return exactly the texel under the pixel centre, Bilinear the 4-bit-weighted interpolation within 1 LSB and exactly the texel at texel centres; draw_image_at/with_size_at are checked against the statement. Held on what was run. Also: exact mirror transforms, pixel slices longer than the image, surfaces 300-900 px wide under a 1/64..1/128 scale with a compensating source translation, strongly minifying current transforms cancelled by the source transform, whole-number translations of 2^20..2^24 for the whole-number route, surfaces 257-1065 px wide, and observation through SrcOver as well as Src.",
         note="Samples within the 16.16 conversion error of a texel or weight boundary accept either neighbour (counted); the band is zero for exact integer translations, so the integer fast paths must be exact.",
         ref="DESIGN.md section 3, C13",
     ),
